@@ -12,6 +12,8 @@ class _Probe:
     def glomit(self, target, scope):
         if self.mode == 'method':
             return self.fn(self.spec, target, scope)
+        if self.mode == 'handler2':
+            return self.fn(target, self.spec)
         return self.fn(target, self.spec, scope)
 
 
@@ -19,10 +21,21 @@ def outcome(fn, mode, target, spec, **kw):
     import glom
     try:
         v = glom.glom(target, _Probe(fn, mode, spec), glom_debug=True, **kw)
-        return ('ok', type(v).__name__, _ADDR.sub('', repr(v)))
+        try:
+            text = repr(v)
+        except Exception as e2:
+            text = '<unreprable %s>' % type(e2).__name__
+        return ('ok', type(v).__name__, _ADDR.sub('', text))
     except BaseException as e:
         args = getattr(e, 'args', ())
-        return ('exc', type(e).__name__, _ADDR.sub('', repr(args))[:200])
+        try:
+            text = repr(args)
+        except Exception as e2:
+            text = '<unreprable %s>' % type(e2).__name__
+        extra = ''
+        if hasattr(e, 'part_idx'):
+            extra = ' part_idx=%r exc=%s' % (e.part_idx, type(getattr(e, 'exc', None)).__name__)
+        return ('exc', type(e).__name__, _ADDR.sub('', text)[:200] + extra)
 
 
 def run_pair(real, ref, target_src, spec_src, mode='handler', env=None, **kw):
@@ -37,7 +50,7 @@ def run_pair(real, ref, target_src, spec_src, mode='handler', env=None, **kw):
 
 def differ(real_name, ref_name, cases, mode='handler', prelude=''):
     """-> witness finder(name, model) for runner.NATIVE.  cases: list of (target_src, spec_src)"""
-    def find(name, model):
+    def find(name, model, count=None):
         import importlib
         rm, rf = real_name.split('.', 1)
         real = importlib.import_module('glom.' + rm)
@@ -49,6 +62,8 @@ def differ(real_name, ref_name, cases, mode='handler', prelude=''):
         if prelude:
             exec(prelude, env)
         for t, s in (cases() if callable(cases) else cases):
+            if count is not None:
+                count[0] += 1
             a, b = run_pair(real, ref, t, s, mode, env)
             if a != b:
                 code = ("import importlib, glom\nfrom contracts.native import run_pair\n%s\n"
@@ -59,6 +74,14 @@ def differ(real_name, ref_name, cases, mode='handler', prelude=''):
                         % (prelude, rm, rf, qm, qf, t, s, mode))
                 return {'input': {'target': t, 'spec': s}, 'observed': repr(a), 'expected': repr(b), 'replay_code': code}
         return None
+
+    def run():
+        """bounded differential replay of the contract: real code vs reference on the whole input catalogue"""
+        n = [0]
+        w = find('(differential replay)', {}, n)
+        return n[0], w
+    find.run = run
+    find.real_name, find.ref_name = real_name, ref_name
     return find
 
 
